@@ -20,6 +20,7 @@ ASSUMED engine primitives (trusted base, compared with DuckDB / the oracle by th
 import SqlframeModel.Gen.EngineFns
 import SqlframeModel.Impl.C12Names
 import SqlframeModel.Impl.C12TimeTables
+import SqlframeModel.Impl.C12Round
 namespace Sqlframe.C12
 open Sqlframe.Gen
 
@@ -259,5 +260,21 @@ def sqlframeRegexpReplace (engine : String) (posGiven : Bool) (ps : List Piece) 
   | some r =>
     let g := if posGiven then r.gWithPos else r.gNoPos
     if regexpFirstOnly engine && !g then replaceFirst ps else replaceAll ps
+
+/-! ### rint -/
+
+def rintRuleOf (engine : String) : Option RintRule := (rintRules.find? (·.1 = engine)).map (·.2)
+
+/-- `F.rint(col)` over the double h/2 as the engine evaluates its statement.  ASSUMED: ROUND_EVEN(x, 0) and the native RINT round
+    ties to even; `round(col, 0)` (functions.round, with its generated Postgres NUMERIC cast) rounds ties away from zero on
+    every engine (`sqlframeRound`'s primitive table, Impl/C12Round.lean) -/
+def sqlframeRint (rule : RintRule) (h : Int) : Int :=
+  match rule with
+  | .roundEven => halfEven h
+  | .native => halfEven h
+  | .fromRound => halfAway h
+
+/-- PySpark: rint() is Java's Math.rint — ties to even -/
+def sparkRint (h : Int) : Int := halfEven h
 
 end Sqlframe.C12
